@@ -26,6 +26,9 @@ def gen(rs: int, tier: str, index: int) -> dict:
 def oracle(script: dict, run: Any) -> List[Violation]:
     out: List[Violation] = []
     N = script["workers"]
+    if run.end == "raised":
+        out.append(Violation("C17/supervisor-crashed", f"ProcessManager.start() raised {run.exc}: no worker is supervised or replaced any more"))
+        return out
     seen_sleep = False
     ended_at = None
     for e in run.events:
@@ -82,7 +85,8 @@ def oracle(script: dict, run: Any) -> List[Violation]:
 
 def probes(script: dict, run: Any) -> Dict[str, int]:
     res = {"death_replaced": 0, "death_at_start": 0, "reload_all": 0, "death_during_reload": 0, "two_deaths_same_tick": 0, "lag_hid_an_item": 0,
-           "death_after_scan_of_slot": 0}
+           "death_after_scan_of_slot": 0,
+           "clean_exit_code_0": int(any(e[3] == "inject_die" and e[4].get("code") == 0 for e in run.events))}
     dies = [e for e in run.events if e[3] == "inject_die"]
     res["death_replaced"] = int(any(x[3] == "start" and x[1] > 0 for x in run.events) and bool(dies))
     ticks = [e[1] for e in dies]
